@@ -74,8 +74,8 @@ theorem fillCmpErr_le_zero (root x : RankInput) : fillCmpErr root x ≤ 0 := by
   · split <;> decide
 
 /-- after the safe-mode Allreduce in ncmpio_fill_var_rec either every rank has an error or none has -/
-theorem fillSafeErr_ne_zero_iff (root : RankInput) (world : List RankInput) (x : RankInput) (hx : x ∈ world) :
-    fillSafeErr root world x ≠ 0 ↔ minOf (world.map (fillCmpErr root)) ≠ 0 := by
+theorem fillSafeErr_ne_zero_iff (mc : Bool) (root : RankInput) (world : List RankInput) (x : RankInput) (hx : x ∈ world) :
+    fillSafeErr mc root world x ≠ 0 ↔ minOf (world.map (fillCmpErr root)) ≠ 0 := by
   unfold fillSafeErr
   split
   · rename_i h
@@ -83,8 +83,9 @@ theorem fillSafeErr_ne_zero_iff (root : RankInput) (world : List RankInput) (x :
     · intro _ hm
       have h1 := minOf_map_mem (fillCmpErr root) world x hx
       have h2 := fillCmpErr_le_zero root x
+      have := h.2
       omega
-    · intro _; exact h
+    · intro _; exact h.2
   · exact Iff.rfl
 
 theorem metaCode_le_zero (x : RankInput) : metaCode x ≤ 0 := by
